@@ -12,7 +12,7 @@ ID = "C09"
 TECHNIQUE = "Hypothesis-generated multi-contest audits: differential re-run of each assertion's configured test on its own data; iff-conjunction oracle for completion; reset check"
 RULE = (
     "pipeline cases: 1-4 contests with different risk limits / audit types / social choice functions / tests, generated CVRs, "
-    "MVRs, sample numbers and sizes, run through margins -> consistent_sampling -> set_p_values -> summarize_status -> "
+    "MVRs, sample numbers and sizes, run through margins (from the CVRs, or from the reported tally where a contest can be tallied) -> consistent_sampling -> set_p_values -> summarize_status -> "
     "reset_p_values. direct cases: 1-4 contests whose assertions' tests are stubs returning generated p-values (including "
     "exactly the risk limit, 0, 1, values one ulp either side). Oracle: recorded (p, history) == copy of the configured test "
     "run on mvrs_to_data output; contest.max_p == max; returned value == overall max; complete == all(p <= own limit). "
@@ -173,7 +173,19 @@ def evaluate(case, out):
                 for a in con.assertions.values():
                     a.assorter.set_tally_pool_means(cvr_list=cvrs, use_style=us)
         audit.check_audit_parameters(contests)
-        Assertion.set_all_margins_from_cvrs(audit, contests, cvrs)
+        # margins come from the CVRs, or - for contests that can be tallied - from the reported tally
+        # (Contest.tally + find_margins_from_tally, the other documented way to set them)
+        by_tally = {cid: con for cid, con in contests.items()
+                    if len(cvrs) % 2 == 1 and scn["contests"][cid]["kind"] in ("plurality", "super")
+                    and con.audit_type in ("CARD_COMPARISON", "POLLING")}
+        if by_tally:
+            Contest.tally(by_tally, cvrs)
+            for con in by_tally.values():
+                con.find_margins_from_tally()
+            feats.add("margins-from-the-tally")
+        others = {cid: con for cid, con in contests.items() if cid not in by_tally}
+        if others:
+            Assertion.set_all_margins_from_cvrs(audit, others, cvrs)
     except Exception as e:  # noqa
         out.lib_exception("setup", e)
         return
